@@ -36,7 +36,6 @@ class RequestChannelRequester(RequestChannelCommon, Requester):
         )
 
     def subscribe(self, subscriber: Subscriber):
-        self.setup()
         super().subscribe(subscriber)
         self._is_requested = True
         self._send_channel_request(self._payload)
@@ -48,6 +47,10 @@ class RequestChannelRequester(RequestChannelCommon, Requester):
 
         if self._cancel_after_request:  # cancelled from within on_subscribe: CANCEL must not precede the request
             self.send_cancel()
+
+        # the local publisher is subscribed only now: whatever it signals at once (an empty or failing source completes or
+        # errors from inside subscribe()) must follow the request frame on the wire
+        self.setup()
 
         if self._publisher is None:
             self.mark_completed_and_finish(sent=True)
